@@ -103,7 +103,7 @@ def main():
             'guard': 'cargo feature verif-hooks (packages/rooc/Cargo.toml); Kani include points additionally need cfg(kani)',
             'enable': 'the driver depends on rooc with features=["verif-hooks"]; Kani runs use cargo kani --features verif-hooks with ROOC_VERIF_KANI_DIR=/verif/kani',
             'baseline_off_cmd': 'cd /repo/packages/rooc && cargo test --workspace --no-fail-fast --offline',
-            'source_commits': ['6a72f90'],
+            'source_commits': ['6a72f90', '8921b52'],
             'add_only': True,
         },
         'engines': [
